@@ -60,8 +60,8 @@ func genText(r *rand.Rand, sep string) textSpec {
 		n = 0
 	}
 	width := 1 + r.Intn(4)
-	ragged := r.Intn(5) == 0
-	broken := r.Intn(6) == 0
+	ragged := r.Intn(8) == 0
+	broken := r.Intn(9) == 0
 	brokenAt := -1
 	if broken && n > 0 {
 		brokenAt = r.Intn(n)
@@ -240,7 +240,11 @@ func genGroup(r *rand.Rand, idx int) []*Case {
 	for _, kind := range append(append([]string{}, destRecordKinds...), destByteKinds...) {
 		c := &Case{Dir: "consume", Kind: kind, Text: mon.Q(text), Opts: o, S: genReadScript(r, len(text), 6)}
 		if isIn(destTableKinds, kind) {
-			switch r.Intn(8) {
+			switch r.Intn(9) {
+			case 8:
+				if n > 1 {
+					c.PreLen = 1 + r.Intn(n-1) // shorter, not empty
+				}
 			case 0:
 				c.PreLen = n + 1 + r.Intn(3) // longer
 			case 1:
@@ -257,6 +261,8 @@ func genGroup(r *rand.Rand, idx int) []*Case {
 			case 5:
 				c.PreNil = true
 			}
+		} else if kind == "*csv.Writer" {
+			c.PreNil = r.Intn(8) == 0
 		} else if strings.HasPrefix(kind, "*") {
 			switch r.Intn(8) {
 			case 0, 1:
